@@ -251,7 +251,7 @@ theorem C15_roundtrip (p : Params) :
 /-- non-vacuity: the hypotheses are satisfiable (a reward with the maximal value; a block holding it) and the
 round trip does fail outside them (an index beyond uint16) -/
 example : Transaction.Canon Ex.params Ex.rewardTx ∧ Ex.rewardTx.Fresh := by
-  refine ⟨⟨?_, ?_, ?_, rfl, by decide, fun _ => ⟨_, rfl, rfl, rfl, rfl⟩⟩, by decide⟩
+  refine ⟨⟨?_, ?_, ?_, rfl, by decide, fun _ => ⟨_, rfl, rfl, rfl, rfl⟩, by decide⟩, by decide⟩
   · intro x hx; simp [Ex.rewardTx, elems] at hx
   · intro x hx
     simp only [Ex.rewardTx, elems, Option.getD_some, List.mem_singleton] at hx
